@@ -19,7 +19,7 @@ LEVEL_TEXT = (
     "that aliasing hidden by a cached property that the observer itself filled is still seen."
 )
 LEVEL_NOTE = "no deduplication of histories (merging on equal snapshots would hide aliasing differences); add_nodes() with no argument returns the receiver by design and is not in the menu"
-RULE = "histories enumerated exhaustively to depth D (quick 3, thorough 4); states = distinct tuples of snapshots; transitions = operations applied; distinct_nontrivial = histories with >=2 operations"
+RULE = "histories enumerated exhaustively to depth 3 (quick: depth-3 histories sliced 1/6 by seed, depth<=2 complete; thorough: depth<=3 complete plus a 1/12 slice, rotating with the seed, of the depth-4 histories - all of them is about 40 core-hours); states = distinct tuples of snapshots; transitions = operations applied; distinct_nontrivial = histories with >=2 operations"
 ASSUMPTIONS = ["snapshots are deep copies into plain data (lists copied), bound values compared by identity", "operations whose arguments the library rejects (ValueError / GraphConfigError) end that branch and are counted, not judged"]
 
 VALS = {}
@@ -315,6 +315,8 @@ def run_shard(shard):
         # quick tier: depth-3 histories are sliced (all depth<=2 histories always run)
         if tier == "quick" and len(hist) == 3 and (i + seed) % 6 != 0 and hist[-1][1][0] != "compose_with":
             continue  # (two-object operations need two earlier steps: always kept)
+        if tier != "quick" and len(hist) == 4 and (i + seed) % 12 != 0:
+            continue  # thorough tier: depth <= 3 complete, depth 4 sliced
         acc.evaluations += 1
         acc.traces += 1
         acc.transitions += len(hist)
@@ -342,7 +344,7 @@ def run_shard(shard):
 
 
 def coverage_extra(acc, tier, seed):
-    return {"depth": 3 if tier == "quick" else 4, "depth3_slice": "1/6 rotating with seed" if tier == "quick" else "all"}
+    return {"depth": 3 if tier == "quick" else 4, "depth3_slice": "1/6 rotating with seed" if tier == "quick" else "all", "depth4_slice": None if tier == "quick" else "1/12 rotating with seed"}
 
 
 def _op(o):
